@@ -28,14 +28,6 @@ import (
 	"verifharness/tlbx"
 )
 
-func randBits(rng *rand.Rand, n int) boc.BitString {
-	bs := boc.NewBitString(n)
-	for i := 0; i < n; i++ {
-		_ = bs.WriteBit(rng.Intn(2) == 1)
-	}
-	return bs
-}
-
 func goChunked(a []string) string {
 	seed, _ := strconv.ParseInt(a[0], 10, 64)
 	rng := rand.New(rand.NewSource(seed))
@@ -183,55 +175,6 @@ func goAbiWallet(a []string) string {
 		}
 		if want, got := tlbx.Print(reflect.ValueOf(&ext).Elem()), tlbx.Print(reflect.ValueOf(&ae).Elem()); want != got {
 			return "FAIL ext-order " + firstDiff(want, got)
-		}
-		return "ok"
-	})
-}
-
-func goReadSrc(a []string) string {
-	seed, _ := strconv.ParseInt(a[0], 10, 64)
-	rng := rand.New(rand.NewSource(seed))
-	return guard(func() string {
-		n := 16 + rng.Intn(200)
-		src := randBits(rng, n)
-		want := tlbx.BitsOf(src)
-		k := 1 + rng.Intn(n-1)
-		if _, err := src.ReadBits(k); err != nil { // the source has been partially READ
-			return "FAIL prep"
-		}
-		check := func(what string, c *boc.Cell, err error) string {
-			if err != nil {
-				return "FAIL " + what + "-err " + trunc(err.Error())
-			}
-			c.ResetCounters()
-			if got := tlbx.BitsOf(c.RawBitString()); got != want {
-				return "FAIL " + what + "-short got=" + fmt.Sprint(len(got)-1) + " want=" + fmt.Sprint(n)
-			}
-			return ""
-		}
-		c1 := boc.NewCell()
-		if r := check("writebitstring", c1, c1.WriteBitString(src)); r != "" {
-			return r
-		}
-		c2 := boc.NewCell()
-		if r := check("marshal-bitstring", c2, tlb.Marshal(c2, src)); r != "" {
-			return r
-		}
-		c3 := boc.NewCell()
-		if r := check("marshal-snake", c3, tlb.Marshal(c3, tlb.SnakeData(src))); r != "" {
-			return r
-		}
-		// tlb.Any: a cell whose read cursor was moved
-		anyCell := boc.NewCell()
-		must(anyCell.WriteBitString(randBits(rng, n)))
-		anyCell.ResetCounters()
-		want = tlbx.BitsOf(anyCell.RawBitString())
-		if _, err := anyCell.ReadBits(k); err != nil {
-			return "FAIL prep-any"
-		}
-		c4 := boc.NewCell()
-		if r := check("marshal-any", c4, tlb.Marshal(c4, tlb.Any(*anyCell))); r != "" {
-			return r
 		}
 		return "ok"
 	})
